@@ -43,6 +43,7 @@ type c03Cert struct {
 	ID      string
 	Names   []string
 	Due     bool // within its renewal window but still valid (80 of 90 days gone)
+	Future  bool // not valid yet (NotBefore two hours ahead)
 	Ed      bool // Ed25519 key: not supported by the default harness ClientHello
 	RSA     bool // RSA key: supported only by the "rsa" ClientHello / RSA-only real clients
 	Expired bool
@@ -111,6 +112,7 @@ var c03PoolDef = []c03Cert{
 	{ID: "fx", Names: []string{"fb.y", "df.y"}, Expired: true},
 	{ID: "df", Names: []string{"df.y"}},
 	{ID: "r1", Names: []string{"a.x", "q.x"}, RSA: true},
+	{ID: "nv", Names: []string{"a.x", "*.b.x"}, Future: true},
 }
 
 // more pool certificates, used by the random blocks only (not part of the enumerated universe):
@@ -149,6 +151,9 @@ func c03Make(ca *doubles.CA, c *c03Cert) error {
 	}
 	if c.Due {
 		o.NotBefore, o.NotAfter = time.Now().Add(-80*24*time.Hour), time.Now().Add(10*24*time.Hour)
+	}
+	if c.Future {
+		o.NotBefore, o.NotAfter = time.Now().Add(2*time.Hour), time.Now().Add(90*24*time.Hour)
 	}
 	var keyPEM []byte
 	if c.Ed {
@@ -616,7 +621,7 @@ func (env *c03Env) lookupCase(w *emit.Writer, in c03In, class string) error {
 		for _, id := range in.Certs {
 			c := env.pool[id]
 			valid := now.After(c.tls.Leaf.NotBefore.Add(time.Minute)) && now.Before(c.tls.Leaf.NotAfter.Add(-time.Minute))
-			if valid == c.Expired {
+			if valid == (c.Expired || c.Future) {
 				obsErr = fmt.Errorf("pool certificate %s: validity margin violated", id)
 			}
 			attrs[id] = at{hello.SupportsCertificate(&c.tls) == nil, valid, len(c.tls.Certificate) > 0 && c.tls.PrivateKey != nil}
